@@ -354,7 +354,7 @@ def perturb(rng, entries, work, counters):
             src = 'import fpy2 as fp\n@fp.fpy\ndef f(x, y):\n    return x * %d + y\n' % rng.randrange(100)
             m = genprog.load_module(src, work, 'c18new')
             m.f(1.0, 2.0)
-            genprog.unload(m)
+            genprog.unload(m, keep_caches=True)
             counters['decorated_new_f'] = counters.get('decorated_new_f', 0) + 1
         elif k == 2:
             e = rng.choice(entries)
@@ -568,7 +568,7 @@ def shard(i: int, n: int, tier: str, seed: int) -> Result:
         for e in entries:
             if e.get('mod') is not None:
                 from ..gen import prog as genprog
-                genprog.unload(e['mod'])
+                genprog.unload(e['mod'], keep_caches=True)
     return res
 
 
